@@ -335,14 +335,20 @@ func (s *vrSub) pump() {
 // waits until every notification the manager owes this subscriber arrived
 func (s *vrSub) waitArrived(d time.Duration) bool {
 	deadline := time.Now().Add(d)
+	grace := 40 // see settle: a deadline missed while the process was starved
 	s.mu.Lock()
 	defer s.mu.Unlock()
 	for s.got < s.want {
+		pause := 50 * time.Microsecond
 		if time.Now().After(deadline) {
-			return false
+			if grace == 0 {
+				return false
+			}
+			grace--
+			pause = 5 * time.Millisecond
 		}
 		s.mu.Unlock()
-		time.Sleep(50 * time.Microsecond)
+		time.Sleep(pause)
 		s.mu.Lock()
 	}
 	return true
@@ -689,6 +695,16 @@ func (x *vrRun) settle(probe bool, d time.Duration) error {
 		return nil
 	}
 	wasSel := x.atSel
+	deadline := time.After(d)
+	// A deadline that expires while the whole process was starved (machine
+	// under load) says nothing about the rescan: the deadline and the
+	// rescan's own timer become due together.  A long wait is therefore
+	// only given up after the process has demonstrably been scheduled a
+	// number of further times without anything arriving.
+	grace := 0
+	if d >= time.Second {
+		grace = 40
+	}
 	for {
 		x.atSel = false
 		var out chan blockntfns.BlockNtfn
@@ -704,7 +720,13 @@ func (x *vrRun) settle(probe bool, d time.Duration) error {
 			x.finished(err)
 		case out <- vrProbe{}:
 			x.atSel = true
-		case <-time.After(d):
+		case <-deadline:
+			if grace > 0 {
+				grace--
+				deadline = time.After(5 * time.Millisecond)
+				runtime.Gosched()
+				continue
+			}
 			x.atSel = wasSel
 			return errVrHang
 		}
